@@ -178,6 +178,61 @@ theorem handleMaxStreamData_outwin (s : Stream) (v : Int) :
   repeat' split
   all_goals simp_all
 
+/-! ### connection-level credit conservation (receive side, repaired code) -/
+
+/-- bytes of a stream already handed back to connection-level flow control: what the application
+consumed plus what `Read` parked in the fast-path buffer. -/
+def returned (s : Stream) : Int := s.inp.start + s.inbuf.length
+
+/-- what the peer has been or will be granted: the next MAX_DATA value plus pending credit -/
+def granted (c : Conn) : Int := c.newLimit + c.credit
+
+theorem granted_bytesRead (c : Conn) (n : Int) :
+    granted (c.bytesReadOffLoop n) = granted c + n ∧ granted (c.bytesReadOnLoop n) = granted c + n := by
+  unfold granted Conn.bytesReadOffLoop Conn.bytesReadOnLoop Conn.sendMaxDataUpdate
+  constructor
+  · simp only []; repeat' split
+    all_goals simp_all
+    all_goals omega
+  · simp only []; repeat' split
+    all_goals simp_all
+    all_goals omega
+
+/-- **CloseRead credits every buffered byte exactly once**: the grant grows by `in.end` minus what had
+already been returned (bytes parked in `inbuf` were credited by `Read`), and afterwards everything up to
+`in.end` counts as returned.  (Before the repair the parked bytes were credited a second time.) -/
+theorem closeRead_credit (c : Conn) (s : Stream) (hw : s.writeOnly = false) :
+    granted (closeRead c s).1 - granted c = returned (closeRead c s).2 - returned s ∧
+      returned (closeRead c s).2 = s.inp.stop := by
+  unfold closeRead
+  simp only [hw, Bool.false_eq_true, if_false]
+  constructor
+  · rw [(granted_bytesRead _ _).1]
+    unfold returned Pipe.discardBefore
+    simp; omega
+  · unfold returned Pipe.discardBefore
+    simp
+
+/-- **An accepted first RESET_STREAM credits exactly the bytes not yet returned**, up to the final size. -/
+theorem handleReset_credit (c : Conn) (s : Stream) (code final : Int)
+    (h0 : (handleReset c s code final).2.2 = 0) (hr : s.inresetcode = -1) :
+    granted (handleReset c s code final).1 - granted c = final - returned s := by
+  unfold handleReset at h0 ⊢
+  simp only [] at h0 ⊢
+  by_cases h1 : checkStreamBounds s.inwin s.insize s.inp.stop final true = 0
+  · simp only [h1, ne_eq, not_true_eq_false, if_false, hr] at h0 ⊢
+    by_cases h2 : s.insize = -1
+    · simp only [h2, if_true] at h0 ⊢
+      by_cases h3 : (bytesReceived c.usedLimit c.sentLimit (final - s.inp.stop)).1 = 0
+      · simp only [h3, ne_eq, not_true_eq_false, if_false]
+        rw [(granted_bytesRead _ _).2]
+        unfold granted returned; simp only []; omega
+      · simp [h3] at h0
+    · simp only [h2, if_false, ne_eq, not_true_eq_false]
+      rw [(granted_bytesRead _ _).2]
+      unfold granted returned; omega
+  · simp [h1] at h0
+
 /-! ### send path: connection credit (`min(avail, …)` then `consume`) -/
 
 /-- The clamp never asks for more than the connection credit allows: if the frame starts at or below
